@@ -25,7 +25,7 @@ ASSUMPTIONS = ["probe models stand for arbitrary models: ordering does not depen
 REQUIRED_COUNTERS = ["probe_events", "m2_model_calls", "runs_exposure", "runs_observation",
                      "runs_observation_dask", "runs_calibration", "runs_history", "runs_exposure_after_observation", "calibration_evaluations_checked", "yaml_loaded",
                      "debug_nodes_checked", "runs_with_override_dct", "falsy_overrides",
-                     "swept_model_has_namesake_in_earlier_group"]
+                     "swept_model_has_namesake_in_earlier_group", "runs_without_enabled_model"]
 TIMEOUT = {"quick": 600, "thorough": 3000}
 
 MODES = ["exp_py", "exp_py_debug", "exp_py_hier", "exp_yaml", "exp_yaml_debug_hier",
@@ -486,6 +486,17 @@ def run_shard(spec, rec):
             idx = 10_000 + j
             if rec.wanted(idx):
                 run_calibration_case(rec, ctx, idx, rec.rng(idx))
+        # pipelines in which NO model is enabled, with debug capture (nothing may run, nothing may fail)
+        for j, mode in enumerate(("exp_py_debug", "exp_yaml_debug_hier", "exp_py")):
+            idx = 30_000 + j
+            if rec.wanted(idx):
+                rng = rec.rng(idx)
+                pspec = rand_pipeline(rng)
+                for ms in pspec.values():
+                    for m in ms:
+                        m["enabled"] = False
+                rec.count("runs_without_enabled_model")
+                run_case(rec, ctx, idx, pspec, 1, mode, rng, "none-enabled")
         for i in range(spec["n"]):
             if not rec.wanted(i):
                 continue
